@@ -696,7 +696,7 @@ func randomOp(r *rand.Rand, pos int, kts []string) ROp {
 		ty = "update"
 	}
 
-	o := ROp{Type: ty, Wf: "ok", Reveal: "ok", Sig: "ok", Dhash: true, Dv: "ok", Sfx: true}
+	o := ROp{Type: ty, Wf: "ok", Reveal: "ok", Sig: "ok", Dhash: true, Dv: "ok", Sfx: true, Nuv: "norm"}
 
 	wfCommon := []string{"badjson", "nosuffix", "nosigneddata", "reveal_mh", "badjws", "extrahdr", "algnone", "algdisallowed", "noalg", "nokey", "badkey", "crv", "nonce", "payloadjson"}
 
@@ -740,6 +740,7 @@ func randomOp(r *rand.Rand, pos int, kts []string) ROp {
 
 	if r.Float64() < 0.1 {
 		o.Nu = o.Nr
+		o.Nuv = "equal"
 	}
 
 	if ty != "create" && ty != "bogus" && r.Float64() < 0.5 {
